@@ -313,10 +313,16 @@ func (e *Engine) resolveClosure(c *Contract) (*ssa.Function, error) {
 		return nil, err
 	}
 	var matches []*ssa.Function
+	byOrdinal := regexp.MustCompile(`^(\$[0-9]+)+$`).MatchString(c.Closure.Calling)
 	var walk func(f *ssa.Function)
 	walk = func(f *ssa.Function) {
 		for _, a := range f.AnonFuncs {
-			if closureCalls(a, c.Closure.Calling) {
+			if byOrdinal {
+				// "calling $2$1": the closure is named by its ordinal path
+				if a.Name() == parent.Name()+c.Closure.Calling {
+					matches = append(matches, a)
+				}
+			} else if closureCalls(a, c.Closure.Calling) {
 				matches = append(matches, a)
 			}
 			walk(a)
@@ -360,13 +366,28 @@ func (e *Engine) funcDisplayName(fn *ssa.Function, con *Contract) string {
 		pkg = fn.Pkg.Pkg.Name()
 	}
 	if con != nil && con.Closure != nil {
-		return pkg + "." + strings.ReplaceAll(con.Key, " ", "_")
+		return dispPkg(fn, pkg+"."+strings.ReplaceAll(con.Key, " ", "_"))
 	}
 	ns := funcNames(fn)
+	name := ns[0]
 	if len(ns) > 1 {
-		return ns[1]
+		name = ns[1]
 	}
-	return ns[0]
+	return dispPkg(fn, name)
+}
+
+// dispPkg: when a package's directory name differs from its package name
+// (pkg/lifecycle-poc is package lifecycle, like pkg/lifecycle), display names
+// use the directory name, so that obligations of the two packages stay apart.
+func dispPkg(fn *ssa.Function, name string) string {
+	if fn.Pkg == nil {
+		return name
+	}
+	pn, base := fn.Pkg.Pkg.Name(), filepath.Base(fn.Pkg.Pkg.Path())
+	if pn != base && strings.HasPrefix(name, pn+".") {
+		return base + strings.TrimPrefix(name, pn)
+	}
+	return name
 }
 
 // contractModComps: the components named by a contract's modifies clause,
